@@ -55,6 +55,21 @@ CHECKS = {
                      "execution: no panic / exit 101, no deadlock, no livelock, termination, exit 0 when all scripts succeed.",
                 note="Interleavings inside an SQLite immediate transaction and inside the kernel are not distinguished; time in the jobserver is virtual; at most 2 "
                      "top-level invocations and the listed graphs; schedules beyond the deviation bound are not covered."),
+    "C10": dict(engine="E3", category="fault_enumeration", design_ref="DESIGN.md §4 C10, appendix D",
+                technique="exhaustive crash-point enumeration: SIGKILL before every state-changing libc call of every redo process, then recovery history and oracle",
+                text="For worlds chain (quick) plus csum-mid and default (thorough), pre-states {first build, incremental rebuild after an edit}, scopes {that process only, "
+                     "whole tree}: the build is killed immediately before EVERY state-changing libc call (rename, unlink, open-for-write/create, write to the database, WAL, log, "
+                     "ftruncate, mkdir...) of every redo process (k = 1..N per logical process, ~280 points quick, ~1200 thorough); then `redo-ifchange top` must terminate, "
+                     "exit 0, give from-scratch contents without 'you modified it', react correctly to editing every source, leave redo-ood empty, no lock held and no *.redo.tmp.",
+                note="Crash = process kill at libc-call boundaries (the property's quantifier), not power loss. Shim coverage cross-checked against strace -f. -j1, REDO_LOG=0. "
+                     "The counting run is done twice and must agree."),
+    "C16": dict(engine="E2", category="model_checking", design_ref="DESIGN.md §4 C16, appendix A",
+                technique="stateless model checking of 2-3 concurrently started real commands under a controlled scheduler, iterative deviation bounding",
+                text="2-3 top-level commands (builds and read-only queries) started together on a project without .redo and on an existing database; every schedule with "
+                     "<= b deviations (quick 1, thorough 2-3) at the gates database-open, transaction begin, locks, event loop, scripts is executed on the real binary. "
+                     "Oracle: every command exits 0 with no SQLite/busy/lock message, integrity_check ok, every Files row and Deps edge each command must write is present, "
+                     "contents correct, run ids unique.",
+                note="No gate inside an IMMEDIATE transaction (mutually excluded by SQLite, atomic for other processes). <= 3 commands; all scripts succeed."),
     "C13": dict(engine="E4 + single-step real-binary enumeration", category="exploration", design_ref="DESIGN.md §4 C13",
                 technique="exhaustive enumeration of target paths x all 2^k placements of candidate scripts, independent reference of the documented search order",
                 text="E4: for every target path of a component grammar (5 directory shapes x 9 name shapes incl. leading dots, double dots, spaces, unicode; "
